@@ -213,7 +213,19 @@ func body(cfg config, obs *observation) {
 			case "withdraw":
 				obs.err = a.Withdraw(ctx, req, nil)
 			case "progress":
-				obs.err = a.Progress(ctx, channel.ProgressReq{AdjudicatorReq: req, NewState: st})
+				// the ledgers of a progression are those of the channel's registered transaction; the
+				// state progressed into is given a different asset list here so that reading the
+				// ledgers from it shows (first asset moved to the next ledger, one more asset on a
+				// ledger that may be unregistered or failing)
+				ns := &channel.State{Allocation: channel.Allocation{
+					Assets:   append(append([]channel.Asset{}, as...), &masset{ledgers[2]}),
+					Backends: append(append([]wallet.BackendID{}, bk...), 0),
+					Balances: append(append(channel.Balances{}, bals...), []channel.Bal{big.NewInt(1), big.NewInt(1)}),
+				}}
+				if len(cfg.assets) > 0 && cfg.assets[0] != plainIdx && cfg.assets[0] < 3 {
+					ns.Assets[0] = &masset{ledgers[(cfg.assets[0]+1)%3]}
+				}
+				obs.err = a.Progress(ctx, channel.ProgressReq{AdjudicatorReq: req, NewState: ns})
 			}
 		}
 		if vsched.Active() {
